@@ -209,6 +209,13 @@ class Evaluator:
         r = self.region(t)
         if r is not None:
             return self.region_bytes(r)
+        if t[0] == "mut":
+            return self.mut_array(t)
+        if t[0] == "repeat":
+            v = self.bv(t[1])
+            if v is not None and v.width == 8 and isinstance(t[2], int) and t[2] <= 64:
+                return [list(v.bits) for _ in range(t[2])]
+            return None
         if t[0] == "mem":
             return [[(v >> b) & 1 for b in range(8)] for v in t[1]]
         if t[0] == "aggr" and t[1] == "array":
@@ -234,6 +241,60 @@ class Evaluator:
                     out.extend(b)
                 return out
         return None
+
+    def mut_array(self, t):
+        """A local byte array initialised once and then written only through
+        `array[..n].copy_from_slice(src)` views: overlay the writes on the initial value.
+        Every `&mut` borrow of the local must be accounted for by such a write."""
+        l, init = t[1], t[2]
+        base = self.byte_array(init)
+        if base is None:
+            return None
+        body = self.an.body
+        tm = self.an.terms
+        nborrows = 0
+        for bi, si, st in body.stmts():
+            if st["k"] == "assign" and st["rv"]["k"] == "ref" and st["rv"].get("m") and st["rv"]["p"]["l"] == l \
+                    and not any(e["k"] == "deref" for e in st["rv"]["p"]["pr"]):
+                nborrows += 1
+        writes = []
+        for bb, term in body.calls():
+            if short(term.get("callee") or "") != "<impl [T]>::copy_from_slice":
+                continue
+            dst = tm.operand(term["args"][0])
+            d = dst
+            while d[0] in ("ref", "deref"):
+                d = d[1]
+            if d[0] == "call" and short(d[1]) == "IndexMut::index_mut" and len(d[2]) == 2:
+                b0 = d[2][0]
+                while b0[0] in ("ref", "deref"):
+                    b0 = b0[1]
+                if b0[0] == "mut" and b0[1] == l:
+                    rng = strip(d[2][1])
+                    lo, hi = None, None
+                    if rng[0] == "aggr" and rng[1].startswith("adt:std::ops::Range"):
+                        ops = [lin_of_term(self, o) for o in rng[2]]
+                        kind = rng[1].split("::")[-1]
+                        if all(o is not None and o[0] == 0 for o in ops):
+                            if kind == "RangeTo":
+                                lo, hi = 0, ops[0][1]
+                            elif kind == "Range":
+                                lo, hi = ops[0][1], ops[1][1]
+                            elif kind == "RangeFrom":
+                                lo, hi = ops[0][1], len(base)
+                            elif kind == "RangeFull":
+                                lo, hi = 0, len(base)
+                    src = self.byte_array(tm.operand(term["args"][1]))
+                    if lo is None or src is None or hi - lo != len(src) or hi > len(base):
+                        return None
+                    writes.append((bb, lo, hi, src))
+        if len(writes) != nborrows or not writes:
+            return None
+        out = [list(b) for b in base]
+        for bb, lo, hi, src in sorted(writes, key=lambda w: self.an.body.rpo().index(w[0]) if w[0] in self.an.body.rpo() else 0):
+            for k in range(lo, hi):
+                out[k] = list(src[k - lo])
+        return out
 
     # ---------------------------------------------------------------- bit-vectors
     def bv(self, t):
